@@ -27,7 +27,7 @@ type Profile struct {
 	RawStore                                                              int  // percent of histories on the raw MemoryStore (monitors only)
 	JWT                                                                   int  // percent of histories with JWT access tokens (monitors only)
 	ClientLife                                                            int  // percent of clients with a table of lifetime overrides
-	Contract                                                              int  // percent of histories on the contract-following device store (monitors only)
+	Contract                                                              int  // percent of histories on the contract-following device store
 	Smuggle                                                               int
 }
 
